@@ -143,3 +143,112 @@ Example wf_indexed_example : wf_indexed one_layer one_layer_VV.
 Proof. exact one_layer_wf. Qed.
 Example mesh_wf_example : mesh_wf tetra_mesh.
 Proof. destruct (wf_mesh _ _ one_layer_wf (mkPair 0 0 1%Z 1 1 1) (or_introl eq_refl)) as [W _]. exact W. Qed.
+
+(* ------------------------------------------------------------------------------------------------------------
+   The well-formedness premise discharged (C11's bridge coq/Geom/IndexBridgeC10.v): for EVERY geometry that
+   Geometry::finalize accepts (default ordering) whose mesh files are well formed (distinct vertex references,
+   non-degenerate triangles over them), the indexed geometry read off the finalized model satisfies wf_indexed.
+   The headline theorems therefore hold for every loaded geometry, with no premise on the bookkeeping. *)
+From OM Require Geom.GeomModel Geom.IndexBridgeC10.
+
+Theorem potential_rows_sum_zero_for_every_loaded_geometry :
+  forall g hasc zero snz fi sig sinv ind K pos area Sk Dk,
+  GeomModel.finalize g hasc zero snz false = (GeomModel.StOk, Some fi) -> IndexBridgeC10.meshes_well_formed g ->
+  let G := IndexBridgeC10.to_igeom g fi sig sinv ind in
+  forall rho, In rho (IndexBridgeC10.VV g fi) -> ~ In (vix G rho) (outer_idx G) ->
+  Rsum (fun u => mget RO (headmat RO K pos area Sk Dk G) (vix G rho) (vix G u)) (IndexBridgeC10.VV g fi) = 0.
+Proof.
+  intros g hasc zero snz fi sig sinv ind K pos area Sk Dk Hf Hw G rho Hr Ho.
+  apply headmat_rowsum_zero; auto. unfold G. eapply IndexBridgeC10.finalize_wf_indexed; eauto.
+Qed.
+Print Assumptions potential_rows_sum_zero_for_every_loaded_geometry.
+
+Theorem N_blocks_keep_potential_row_sums_for_every_loaded_geometry :
+  forall g hasc zero snz fi sig sinv ind K pos area Sk Dk,
+  GeomModel.finalize g hasc zero snz false = (GeomModel.StOk, Some fi) -> IndexBridgeC10.meshes_well_formed g ->
+  let G := IndexBridgeC10.to_igeom g fi sig sinv ind in
+  forall rho p M, In rho (IndexBridgeC10.VV g fi) -> In p (gpairs G) ->
+  rowsum (pair_step RO K pos area Sk Dk G M p) (vix G rho) (Cidx G (IndexBridgeC10.VV g fi))
+  = rowsum M (vix G rho) (Cidx G (IndexBridgeC10.VV g fi)).
+Proof.
+  intros g hasc zero snz fi sig sinv ind K pos area Sk Dk Hf Hw G rho p M Hr Hp.
+  apply (pair_step_keeps K pos area Sk Dk G (IndexBridgeC10.VV g fi)); auto.
+  unfold G. eapply IndexBridgeC10.finalize_wf_indexed; eauto.
+Qed.
+Print Assumptions N_blocks_keep_potential_row_sums_for_every_loaded_geometry.
+
+Theorem no_parts_all_rows_sum_zero_for_every_loaded_geometry :
+  forall g hasc zero snz fi sig sinv ind K pos area Sk Dk,
+  GeomModel.finalize g hasc zero snz false = (GeomModel.StOk, Some fi) -> IndexBridgeC10.meshes_well_formed g ->
+  let G := IndexBridgeC10.to_igeom g fi sig sinv ind in
+  gparts G = [] ->
+  forall rho, In rho (IndexBridgeC10.VV g fi) ->
+  Rsum (fun u => mget RO (headmat RO K pos area Sk Dk G) (vix G rho) (vix G u)) (IndexBridgeC10.VV g fi) = 0.
+Proof.
+  intros g hasc zero snz fi sig sinv ind K pos area Sk Dk Hf Hw G Hp rho Hr.
+  apply AssemblyProofs.no_parts_all_rows_sum_zero; auto. unfold G. eapply IndexBridgeC10.finalize_wf_indexed; eauto.
+Qed.
+Print Assumptions no_parts_all_rows_sum_zero_for_every_loaded_geometry.
+
+(* ------------------------------------------------------------------------------------------------------------
+   Why the four singular-matrix findings (hole, hole+blob, shell0, shell00) are forced by the structure of the code
+   (coq/Geom/CavityKernel.v).  A cavity wall W: current barrier, not an outermost mesh of a part (never deflated),
+   vertices of its own, and Gauss' law for the constant on W seen from the other meshes it communicates with (the only
+   hypothesis on a kernel: the D rows of those meshes sum to zero over W).  Then EVERY row of the head matrix sums
+   to zero over the columns of W's vertices: the indicator vector of W is in the kernel, whatever S, the
+   conductivities and the orientations are. *)
+From OM Require Geom.CavityKernel.
+Theorem cavity_wall_indicator_in_kernel : forall K pos area Sk Dk (g : igeom R) VV, wf_indexed g VV ->
+  forall w, let W := gmesh g w in
+  mesh_wf W -> incl (mverts W) VV -> mbarrier W = true ->
+  (forall v, In v (mverts W) -> ~ In (vix g v) (outer_idx g)) ->
+  (forall p k, In p (gpairs g) -> (k = pm1 p \/ k = pm2 p) -> k <> w ->
+     forall v, In v (mverts (gmesh g k)) -> ~ In v (mverts W)) ->
+  (forall p k t1, In p (gpairs g) -> (k = pm1 p \/ k = pm2 p) -> k <> w -> In t1 (mtris (gmesh g k)) ->
+     Rsum (fun t2 => Dk (tid t1) (tid t2) 0%nat + Dk (tid t1) (tid t2) 1%nat + Dk (tid t1) (tid t2) 2%nat) (mtris W) = 0) ->
+  forall r, Rsum (fun v => mget RO (headmat RO K pos area Sk Dk g) r (vix g v)) (mverts W) = 0.
+Proof. intros K pos area Sk Dk g VV WF w W. exact (CavityKernel.cavity_wall_indicator_in_kernel_lemma K pos area Sk Dk g VV WF w). Qed.
+Print Assumptions cavity_wall_indicator_in_kernel.
+
+(* ------------------------------------------------------------------------------------------------------------
+   The other assembly functions built from the same blocks (coq/Geom/AssemblyOps.v): which cells they can write.
+   Valid for every numeric instance (in particular IEEE doubles); a cell outside stays exactly zero. *)
+From OM Require Import Geom.AssemblyOps Geom.AssemblyOpsProofs.
+Theorem untouched_cells_stay_zero : forall (F : Type) (o : Ops F) ws r c,
+  (forall w, In w ws -> (wi w, wj w) <> (r, c)) -> rat o (apply_raw o sempty ws) r c = f0 o.
+Proof. exact @apply_raw_zero. Qed.
+Print Assumptions untouched_cells_stay_zero.
+Theorem surfsource_support : forall (F : Type) (o : Ops F) K pos area g Sk Dk src cond bnds w,
+  In w (surfsource_writes o K pos area g Sk Dk src cond bnds) ->
+  exists b, In b bnds /\ let m := gmesh g (fst (fst b)) in
+    (In (wi w) (map (vix g) (mverts m)) \/ (mbarrier m = false /\ In (wi w) (map tix (mtris m)))) /\
+    (In (wj w) (map (vix g) (mverts src)) \/ exists t2 i, In t2 (mtris src) /\ wj w = vix g (tvi t2 i)).
+Proof. exact @surfsource_sites. Qed.
+Print Assumptions surfsource_support.
+Theorem eit_transmat_rows_are_barrier_triangles : forall (F : Type) (o : Ops F) K area g Sk Dk p w,
+  In w (eit_pair o K area g Sk Dk p) ->
+  mbarrier (gmesh g (pm1 p)) = true /\ In (wi w) (map tix (mtris (gmesh g (pm1 p)))).
+Proof. exact @eit_pair_sites. Qed.
+Print Assumptions eit_transmat_rows_are_barrier_triangles.
+Theorem ferguson_columns_are_potentials : forall (F : Type) (o : Ops F) pos area g Mag Fk jump npts w,
+  In w (ferguson_writes o pos area g Mag Fk jump npts) ->
+  exists m, In m (gmeshes g) /\ misolated m = false /\ In (wj w) (map (vix g) (mverts m)).
+Proof. exact @ferguson_sites. Qed.
+Print Assumptions ferguson_columns_are_potentials.
+Theorem head2meg_columns_are_valid_potentials : forall (F : Type) (o : Ops F) g FM nverts dirs w,
+  In w (meg_writes o g FM nverts dirs) -> wj w <> NOIDX /\ exists v, (v < nverts)%nat /\ wj w = vix g (N.of_nat v).
+Proof. exact @meg_sites. Qed.
+Print Assumptions head2meg_columns_are_valid_potentials.
+Theorem surf2vol_support : forall (F : Type) (o : Ops F) K g Dp Sp doms w,
+  In w (surf2vol_writes o K g Dp Sp doms) ->
+  exists cond bnds pts, In (cond, bnds, pts) doms /\ In (wi w) pts /\
+    exists b, In b bnds /\ let m := gmesh g (fst b) in
+      (exists t i, In t (mtris m) /\ wj w = vix g (tvi t i)) \/ (mbarrier m = false /\ In (wj w) (map tix (mtris m))).
+Proof. exact @surf2vol_sites. Qed.
+Print Assumptions surf2vol_support.
+Theorem head2ecog_support : forall (F : Type) (g : igeom F) hits w,
+  In w (interp_writes g hits) ->
+  exists a b c wa wb wc, In (a, b, c, (wa, wb, wc)) hits /\ (wi w < N.of_nat (length hits))%N /\
+    (wj w = vix g a \/ wj w = vix g b \/ wj w = vix g c) /\ wset w = true.
+Proof. exact @interp_sites. Qed.
+Print Assumptions head2ecog_support.
